@@ -402,16 +402,16 @@ def judge_composition(case, sizes, rd, rt):
 
 def judge_theorem_domain(case, rec, rd, special):
     """wave 7 (request 1706): on the decidable domain of the re-read theorems (C17_domain_predicate_sound) the theorems
-    predict: the reader model never raises on the writer model's document (class 0 captions / 1 length refusal /
-    2 flash refusal) and, when it returns captions, they satisfy ok_reread.  Executed here against BOTH sides: the class
+    predict (round 4, unconditional): the reader model returns captions for the writer model's document (class 0) and they
+    satisfy ok_reread (C17_reread_store, C17_roundtrip_ok).  Executed here against BOTH sides: the class
     the extracted composition reports, and the real SCCReader on the real SCCWriter's output (which must return
     captions: a refusal of an in-domain set is reported, with the model's class, as a broken correspondence)."""
     if not rec["thm_domain"] or not case["caps"]:       # (the class theorem is about non-empty lists)
         return None
     inp = plain(case)
-    if rec["model_class"] not in (0, 1, 2):
+    if rec["model_class"] != 0:
         return {"stream": "B-theorem-domain", "input": inp, "model": rec["model_class"],
-                "what": "extracted composition contradicts C17_reread_class_on_domain_partial (class %r)" % rec["model_class"]}
+                "what": "extracted composition contradicts C17_reread_class_on_domain / C17_roundtrip_ok (class %r)" % rec["model_class"]}
     if special or case["flags"].get("extended") or case["flags"].get("early_first"):
         return {"stream": "B-theorem-domain", "input": inp,
                 "what": "the harness treats a case inside the theorems' domain as outside the property's domain"}
@@ -666,7 +666,7 @@ def run(ctx):
                 "B_first_cue_before_its_transmission_time(outside the hypothesis; structural clauses and model equality only)",
                 "B_characters_outside_basic_set(outside the domain; model equality only)",
                 "B_inside_domain_of_reread_theorems(request 1706)", "B_judged_for_reread_but_outside_theorem_domain",
-                "B_theorem_domain_model_returns_captions", "B_theorem_domain_model_refuses(length/flash: the unproved part)"):
+                "B_theorem_domain_model_returns_captions", "B_theorem_domain_model_refuses(contradicts C17_reread_store)"):
         dist[key] = 0
     cases = build_cases(ctx, dist)
     rows_hist = {}
@@ -702,7 +702,7 @@ def run(ctx):
             dist.setdefault("B_judged_outside_theorem_domain_why", {})
             dist["B_judged_outside_theorem_domain_why"][why] = dist["B_judged_outside_theorem_domain_why"].get(why, 0) + 1
         dist["B_theorem_domain_model_returns_captions"] += int(rec["thm_domain"] and rec["model_class"] == 0)
-        dist["B_theorem_domain_model_refuses(length/flash: the unproved part)"] += int(rec["thm_domain"] and rec["model_class"] in (1, 2))
+        dist["B_theorem_domain_model_refuses(contradicts C17_reread_store)"] += int(rec["thm_domain"] and rec["model_class"] in (1, 2))
         for r in rows:
             rows_hist[r] = rows_hist.get(r, 0) + 1
         key = tuple((tuple(c["lines"]), c["start"], c["end"]) for c in caps)
@@ -747,8 +747,10 @@ def run(ctx):
                     "wave 7: builder sccr's reader model on the writer's own layout, all texts: one load line closes the "
                     "caption on display and queues a buffer with exactly the words of the rows (C17_reader_on_load_line); "
                     "on the whole document the decoder never raises and its caption store holds one caption per cue with the "
-                    "same words and a start within three frames (C17_reread_store_partial); whenever the reader model returns "
-                    "captions they satisfy ok_reread (C17_reread_conditional_partial)"],
+                    "same words and a start within three frames (C17_reader_store_on_written_document); whenever the reader model returns "
+                    "captions they satisfy ok_reread; round 4: the line-length scan and the flash check never refuse such a store, "
+                    "so the reader model returns one caption per cue with the same words, start within three frames, for every "
+                    "list of the domain (C17_reread_store, C17_roundtrip_ok)"],
         "correspondence_only": ["textwrap.wrap itself (stream A validates the Coq model of it)",
                                 "binary64 arithmetic of PASS 2 and _format_timestamp (exact model; exact-boundary "
                                 "inputs counted as near_threshold)",
@@ -757,9 +759,9 @@ def run(ctx):
                                 "re-reading through the real SCCReader: one caption per cue, same words, start time; the same "
                                 "statement for the writer model composed with builder sccr's full reader model is evaluated "
                                 "on every case (request 1705) and compared with the real pair; complete-table theorems for "
-                                "every basic character through both models; wave 7: proved for all in-domain lists up to the "
-                                "two final refusals of SCCReader.read (line-length scan, flash check), whose absence is "
-                                "evaluated on every case (request 1706)",
+                                "every basic character through both models; round 4: a THEOREM for the reader model on the "
+                                "whole domain of C17_reread_store (cues that end after the next start are outside it and "
+                                "judged by execution only; requests 1706 / 1707 evaluate domain and answer class on every case)",
                                 "document assembly of write() (header, line layout)"]}
     res["trusted_extra"] = ["Python's textwrap (modelled by coq/model/SccWrap.v for break_on_hyphens=False, no TABs; "
                             "validated by stream A on every run)",
